@@ -1,10 +1,13 @@
 /-
 Compiler-group driver (C01–C05, C09): JSON lines.
   {"op":"run","package":P,"events":[E..],"query":Q|null,"coll_types":[{"name":..,"type":..}]}
-    -> {"exec":[R..],"denote":[R..]|null,"job":R}      R = {"rows":[[typed..]],"num":[[untyped..]]} | {"fault":class}
+    -> {"exec":[R..],"denote":[R..]|null,"job":R,"wf":bool,"eventlocal":bool}
+       R = {"rows":[[typed..]],"num":[[untyped..]]} | {"fault":class}; exec = each event alone from the initial
+       class state; job = all events in one job; wf / eventlocal = the verified static checks on the package
 Run: lake env lean --run FaxVerif/Cpp/Driver.lean
 -/
 import FaxVerif.Cpp.Json
+import FaxVerif.Cpp.Check
 open Lean FaxVerif.Cpp FaxVerif.Linq
 
 def rowsJson (rows : List (List (Val Float))) : Json :=
@@ -30,7 +33,8 @@ def handleRun (j : Json) : Except String Json := do
     | none => Json.null
     | some q => Json.arr (evs.map fun ev => resJson (denoteRows { N := floatNum, ev := ev, collTypes := cts } q)).toArray
   let job := resJson (runJob P floatNum evs)
-  pure (Json.mkObj [("exec", Json.arr execs.toArray), ("denote", dens), ("job", job)])
+  pure (Json.mkObj [("exec", Json.arr execs.toArray), ("denote", dens), ("job", job),
+    ("wf", Json.bool (WellFormed P)), ("eventlocal", Json.bool (EventLocal P)), ("unique", Json.bool (UniqueNames P))])
 
 def handle (line : String) : String :=
   match Json.parse line with
